@@ -1,6 +1,7 @@
 """Source of truth for MANIFEST.json (tools/gen_manifest.py)."""
 HOOK_COMMITS = []
 ENGINES = [
+    {"name": "E2-aio", "path": "vf/engines/aio.py", "serves_properties": ["C15", "C19"], "kind_free_text": "virtual asyncio loop + stateless DFS schedule explorer with prefix replay"},
     {"name": "E3-world", "path": "vf/engines/world.py", "serves_properties": ["C01", "C02", "C03", "C15", "C16", "C17"], "kind_free_text": "real LLMRails in a scripted closed environment (scripted LLM, fake embeddings, stub actions); conversation BFS"},
     {"name": "E4-parser", "path": "vf/props/c13.py", "serves_properties": ["C13"], "kind_free_text": "layout-edit and mutation enumerators over the real Colang parsers and RailsConfig.from_path"},
     {"name": "E4-streaming", "path": "vf/props/c18.py", "serves_properties": ["C18"], "kind_free_text": "explicit-state search over StreamingHandler states, one transition per chunk"},
@@ -109,5 +110,11 @@ CHECKS["C17"] = {
     "technique": "exhaustive enumeration of a hostile corpus x every LLM call position x every generation mode (pairs of positions and single-edit mutations in thorough) on a real LLMRails instance, with a well-formed follow-up turn",
     "text": "66 hostile outputs (empty/blank, wrong prefixes, unbalanced quotes, Colang 1.0/2.x keywords and flows, Jinja template and variable syntax, 10^4 characters, non-ASCII, literals of unsupported types) at every LLM call position (including one past the normal call count) of the v1 modes general / three-step / single call / multi-step / passthrough and the v2 llm library flows (intent + continuation, value generation): generate never raises, returns an assistant or exception message with string content, `{{ 1234*5 }}` / `$user_message` / `{{ config }}` in LLM text are never evaluated; a well-formed second turn follows every hostile turn.",
     "note": _E3_NOTE + " The corpus is finite and listed in vf/props/c17.py.",
+}
+CHECKS["C15"] = {
+    "engine": "E3-world (sequential) + E2-aio (virtual asyncio loop)", "level": "model_checking",
+    "technique": "exhaustive enumeration of request interleavings (sequential) and of all arrival / LLM-completion orders of overlapping generate_async tasks on a hand-driven virtual asyncio loop (stateless DFS with prefix replay); oracle = each conversation replayed alone",
+    "text": "Sequential: six conversation sets built to collide under the lossy events-cache key (separator in user text, split messages, same text in different roles, context-looking text, shared prefixes) in a general and a dialog world, every interleaving of their requests on one instance, each request's reply and LLM prompts compared with the isolated run. Concurrent: 2 (quick) / 3 (thorough) generate_async tasks with different llm_params, every LLM call awaiting an explorer-owned future, all arrival/completion orders (and arrivals between loop iterations up to a deviation bound): every call runs with its request's parameters, replies/prompts equal the isolated run, parameters at rest are the configured ones.",
+    "note": _E3_NOTE + " The virtual loop (vf/engines/aio.py) owns the ready queue (FIFO, never permuted), timers and external completions; replayed schedules must reproduce identical enabled-choice lists and observations.",
 }
 NOT_APPLICABLE = {}
